@@ -4,6 +4,7 @@ import (
 	"context"
 	"encoding/json"
 	"fmt"
+	"github.com/gofrs/uuid"
 	"net/url"
 	"strings"
 	"testing"
@@ -39,6 +40,36 @@ var nameClasses = []func(sym string) string{
 	func(s string) string { return strings.ToUpper(s) + s },
 	func(s string) string { return s + "é" }, // composed
 	func(s string) string { return s + "é" }, // decomposed: a different string
+}
+
+// uuidSpellings: different strings that the UUID library reads as the same UUID; as names they are unrelated strings.
+func uuidSpellings(sym string) string {
+	const u = "6ba7b810-9dad-11d1-80b4-00c04fd430c8"
+	switch sym {
+	case "x":
+		return u
+	case "y":
+		return strings.ToUpper(u)
+	case "z":
+		return "urn:uuid:" + u
+	}
+	return "{" + u + "}" + sym
+}
+
+// v5Names: a name, the textual id the server derives for it, and the id derived for that text: a chain of unrelated names.
+func v5Names(nid uuid.UUID) func(string) string {
+	return func(sym string) string {
+		base := "plain-name"
+		switch sym {
+		case "x":
+			return base
+		case "y":
+			return uuid.NewV5(nid, base).String()
+		case "z":
+			return strings.ReplaceAll(uuid.NewV5(nid, base).String(), "-", "")
+		}
+		return base + sym
+	}
 }
 
 func init() { families["names"] = famNames }
@@ -224,13 +255,14 @@ func famNames(t *testing.T) {
 	defer out.close()
 	si, sn := shard()
 	e := newStoreEnv(t, storeNamespaces(), *fSeed)
+	classes := append(append([]func(string) string{}, nameClasses...), uuidSpellings, v5Names(e.reg.Persister().NetworkID(e.ctx("A"))))
 	unit := 0
 	for bi, b := range in.Batches {
 		unit++
 		if unit%sn != si {
 			continue
 		}
-		cls := nameClasses[(bi+int(*fSeed))%len(nameClasses)]
+		cls := classes[(bi+int(*fSeed))%len(classes)]
 		var ts []*ketoapi.RelationTuple
 		for _, r := range b {
 			rt := &ketoapi.RelationTuple{Namespace: "n1", Object: cls(r.Obj), Relation: "r"}
